@@ -1,4 +1,4 @@
-\* X07 thorough: numba launch / get / set, depth 5
+\* X07 thorough: numba launch / get / set with OpenMP kernels, fork and spawn children
 SPECIFICATION Spec
 CONSTANTS
   EnvOmp = {0, 1}
@@ -6,10 +6,10 @@ CONSTANTS
   Slurm = {0}
   PutVals = {}
   SetVals = {2}
-  NbVals = {0, 2, 4}
+  NbVals = {0, 4}
   Starts = {}
   Hows = {"fork", "spawn"}
-  POps = {"import", "set", "kernel", "nbget", "nbset", "launch", "checkmp"}
+  POps = {"import", "set", "kernel", "nbget", "nbset", "launch"}
   COps = {"import", "kernel", "nbget"}
   NW = 0
   MaxDepth = 4
@@ -30,6 +30,7 @@ PROPERTY StopSticky
 PROPERTY DoneIsFinal
 PROPERTY RaiseStops
 PROPERTY FlagPerProcess
+PROPERTY PbpOneThread
 ACTION_CONSTRAINT EmitTransition
 VIEW View
 CHECK_DEADLOCK FALSE
